@@ -265,6 +265,7 @@ class SimFS:
         self.readonly_dirs = set()
         self.list_seed = None     # seeded permutation of listings (None = sorted)
         self.bufsize = bufsize or io.DEFAULT_BUFFER_SIZE
+        self.mtime_mode = "fine"
         self.session = None
         self.active = False
         self.armed = []
@@ -578,8 +579,17 @@ class SimFS:
                 mode, size = _stat.S_IFDIR | 0o755, 4096
             else:
                 mode, size = _stat.S_IFREG | 0o644, len(n.data)
-            t = float(n.mtime)
-            return os.stat_result((mode, n.ino, 4242, 1, 0, 0, size, t, t, t))
+            # timestamps: "fine" = every write gets its own microsecond; "coarse" = everything in this run happens
+            # within one second on a file system with whole-second timestamps (legal, and common for small files),
+            # so a rewrite of equal size is invisible to anything that keys on (mtime, size)
+            base = 1704067200
+            if self.mtime_mode == "coarse":
+                sec, ns = base, base * 10**9
+                tf = float(base)
+            else:
+                ns = base * 10**9 + int(n.mtime) * 1000
+                sec, tf = ns // 10**9, ns / 1e9
+            return os.stat_result((mode, n.ino, 4242, 1, 0, 0, size, sec, sec, sec, tf, tf, tf, ns, ns, ns))
         finally:
             if self.active:
                 self._after_stat(path)
